@@ -46,4 +46,22 @@ CHECKS = {
                 "multiple faults and BaseException are out of scope; consistent_of_wf/close_after_open are stated for single-link drivers.",
         "technique": "Lean 4 proof (generic lemmas + per-class decide +kernel on programs translated from source) + line-trace fault-sweep correspondence with the real drivers",
     },
+    "C03": {
+        "text": "Lean theorems over all reachable states of an interleaving model of the request path as a pipeline of FIFO stages "
+                "(unboundedly many caller threads, contexts, objects, requests; actions start/issue/enqLocal/enqRemote/loopRun/"
+                "wireDeliver/workerPop/workerFinish): fifo_pipeline (for every caller c and object o the stages executed++cur++fifo++"
+                "wire++ready++hand restricted to (c,o) equal the issue sequence), per_caller_order (+_started,_by_caller: executions "
+                "are a prefix of the issue order, incl. non-blocking calls never waited for), no_loss_no_dup, executed_at_most_once, "
+                "one_at_a_time (pops-finishes in {0,1} after every prefix of every run), exec_only_by_worker / single_executing_thread / "
+                "executed_only_by_finish. Tie: real contexts, proxies, event loops and worker threads under the deterministic scheduler + "
+                "simulated network with a probe object (line-level yield points); taps on the proxy call entry, loop hand-off, "
+                "_PeerTcpConnection.send_message, handle_message, push_rpc_request, the _fifo deque and the worker loop give a linearised "
+                "event log that the Lean driver replays (each event enabled, same queue contents, invariant kept); independent oracle: no "
+                "overlap, per-caller sequence 0,1,2,…, no duplicate/phantom execution, one executing thread per object.",
+        "note": "Trusted: Lean kernel + 3 axioms; detsched/simnet harness and the taps (incl. the logging subclass installed for "
+                "_RpcThread._fifo). Single-workerness is structural in the model (one `cur` slot, `start` guarded) and is checked on the code "
+                "only by refinement + overlap/second-thread oracle on explored schedules (300 quick / 7000 thorough). Assumes each caller "
+                "thread issues its calls through one context; replies, removal, disconnects, lock requests are out of this model (C01/C04).",
+        "technique": "Lean 4 proof (inductive invariant over an interleaving pipeline model) + trace refinement under a deterministic scheduler",
+    },
 }
